@@ -1009,6 +1009,38 @@ func factsStr(facts []rel) string {
 // paths from the entry (back edges removed). Only conditions accepted by keep are recorded.
 // Each literal is rendered as a normalised relation string.
 func (p *Program) pathConds(fn *ssa.Function, target *ssa.BasicBlock, keep func(r rel) bool) [][]string {
+	// a target inside an inlined helper: the conditions to reach the call site, combined with those inside the helper
+	if target.Parent() != fn {
+		if site, ok := p.helperSite(target.Parent()).(*ssa.Call); ok && site != nil && p.within(target.Parent(), fn) {
+			outer := p.pathConds(fn, site.Block(), keep)
+			inner := p.pathConds(target.Parent(), target, keep)
+			if len(outer) == 0 {
+				outer = [][]string{{}}
+			}
+			if len(inner) == 0 {
+				inner = [][]string{{}}
+			}
+			var out [][]string
+			for _, a := range outer {
+				for _, b := range inner {
+					m := map[string]bool{}
+					for _, x := range a {
+						m[x] = true
+					}
+					for _, x := range b {
+						m[x] = true
+					}
+					keys := make([]string, 0, len(m))
+					for k := range m {
+						keys = append(keys, k)
+					}
+					sort.Strings(keys)
+					out = append(out, keys)
+				}
+			}
+			return out
+		}
+	}
 	type set = map[string]bool
 	memo := map[*ssa.BasicBlock][]set{}
 	done := map[*ssa.BasicBlock]bool{}
@@ -1153,6 +1185,9 @@ func isNilConst(v ssa.Value) bool {
 // res returns the i-th result of a return instruction, looking through the result cells that
 // go/ssa introduces in functions with defers (the value stored to the cell in the returning block).
 func (p *Program) res(ret *ssa.Return, i int) ssa.Value {
+	if ov, ok := p.retOverride[ret]; ok && i < len(ov) && !p.inOverride {
+		return ov[i]
+	}
 	v := ret.Results[i]
 	u, ok := v.(*ssa.UnOp)
 	if !ok || u.Op != token.MUL {
@@ -1181,16 +1216,120 @@ func panicType(pn *ssa.Panic) types.Type {
 
 // returnsOf lists the Return instructions of fn (excluding the synthetic recover block).
 func returnsOf(fn *ssa.Function) []*ssa.Return {
+	return returnsOfD(fn, 0)
+}
+
+// returnsOfD lists the returns of fn; a return that only forwards the results of an inlined helper
+// (`return helper(…)`) is replaced by the returns of that helper, whose results, guards and position are the
+// meaningful ones.
+func returnsOfD(fn *ssa.Function, d int) []*ssa.Return {
 	var out []*ssa.Return
 	for _, b := range fn.Blocks {
 		if len(b.Instrs) == 0 || b == fn.Recover {
 			continue
 		}
-		if r, ok := b.Instrs[len(b.Instrs)-1].(*ssa.Return); ok {
-			out = append(out, r)
+		r, ok := b.Instrs[len(b.Instrs)-1].(*ssa.Return)
+		if !ok {
+			continue
 		}
+		if h := forwardedHelper(r); h != nil && d < 4 {
+			out = append(out, returnsOfD(h, d+1)...)
+			continue
+		}
+		// partly forwarded (`return a, b, "", c` with a, b, c results of one inlined helper): one virtual return per
+		// return of the helper, carrying the helper's values at the forwarded positions
+		if c := partlyForwarded(r); c != nil && d < 4 && activeProg != nil {
+			h := transparentCallee(c)
+			hrs := returnsOfD(h, d+1)
+			okAll := len(hrs) > 0
+			for _, hr := range hrs {
+				if _, taken := activeProg.retOverride[hr]; taken && activeProg.retOwner[hr] != r {
+					okAll = false
+				}
+			}
+			if okAll {
+				for _, hr := range hrs {
+					vec := make([]ssa.Value, len(r.Results))
+					activeProg.inOverride = true
+					for k, rs := range r.Results {
+						if ex, ok := rs.(*ssa.Extract); ok && ex.Tuple == ssa.Value(c) && ex.Index < len(hr.Results) {
+							vec[k] = activeProg.res(hr, ex.Index)
+						} else {
+							vec[k] = activeProg.res(r, k)
+						}
+					}
+					activeProg.inOverride = false
+					activeProg.retOverride[hr] = vec
+					activeProg.retOwner[hr] = r
+					out = append(out, hr)
+				}
+				continue
+			}
+		}
+		out = append(out, r)
 	}
 	return out
+}
+
+// forwardedHelper: ret returns exactly the results of one call of a transparent helper, in order.
+func forwardedHelper(ret *ssa.Return) *ssa.Function {
+	if activeProg == nil || len(ret.Results) == 0 {
+		return nil
+	}
+	var call *ssa.Call
+	for k, rs := range ret.Results {
+		var c *ssa.Call
+		switch x := rs.(type) {
+		case *ssa.Call:
+			if len(ret.Results) != 1 {
+				return nil
+			}
+			c = x
+		case *ssa.Extract:
+			cc, ok := x.Tuple.(*ssa.Call)
+			if !ok || x.Index != k {
+				return nil
+			}
+			c = cc
+		default:
+			return nil
+		}
+		if call == nil {
+			call = c
+		} else if call != c {
+			return nil
+		}
+	}
+	if call == nil || call.Block() != ret.Block() || !nothingBetween(call, ret) {
+		return nil
+	}
+	h := transparentCallee(call)
+	if h == nil || h.Signature.Results().Len() != len(ret.Results) {
+		return nil
+	}
+	return h
+}
+
+// nothingBetween: only value plumbing (extracts, conversions, run-defers) separates the call from the return of
+// its block — the helper's returns then are the function's exits; with a call or store in between they are not.
+func nothingBetween(call *ssa.Call, ret *ssa.Return) bool {
+	b := ret.Block()
+	seen := false
+	for _, in := range b.Instrs {
+		if in == ssa.Instruction(call) {
+			seen = true
+			continue
+		}
+		if !seen || in == ssa.Instruction(ret) {
+			continue
+		}
+		switch in.(type) {
+		case *ssa.Extract, *ssa.Convert, *ssa.ChangeType, *ssa.MakeInterface, *ssa.ChangeInterface, *ssa.DebugRef, *ssa.RunDefers:
+		default:
+			return false
+		}
+	}
+	return seen
 }
 
 // extractOf returns the k-th result of a call value: the Extract instructions referring to it.
@@ -1416,6 +1555,20 @@ func (p *Program) derivesFrom(v ssa.Value, leaf string, depth int) bool {
 		return p.derivesFrom(x.X, leaf, depth+1)
 	case *ssa.UnOp:
 		return p.expr(x) == leaf
+	case *ssa.Call:
+		// computed by an inlined helper with several returns: every returned value derives from the leaf
+		if sc := x.Common().StaticCallee(); sc != nil && p.transparent(sc) && sc.Signature.Results().Len() == 1 {
+			if o := sc.Origin(); o != nil {
+				sc = o
+			}
+			rets := returnsOf(sc)
+			for _, ret := range rets {
+				if !p.derivesFrom(p.res(ret, 0), leaf, depth+1) {
+					return false
+				}
+			}
+			return len(rets) > 0
+		}
 	}
 	return false
 }
@@ -1438,7 +1591,7 @@ func (p *Program) inLoop(l *loopInfo, in ssa.Instruction) bool {
 // corresponding field of every whole-struct value stored to the cell (another local struct, or the struct returned
 // by a transparent helper). ok=false if the cell escapes or a source cannot be followed.
 func (p *Program) fieldSources(fa *ssa.FieldAddr, d int) ([]ssa.Value, bool) {
-	if d > 5 {
+	if d > 14 {
 		return nil, false
 	}
 	base := fa.X
@@ -1491,7 +1644,7 @@ func (p *Program) fieldSources(fa *ssa.FieldAddr, d int) ([]ssa.Value, bool) {
 
 // fieldOfValue: the possible values of field #field of the struct value v.
 func (p *Program) fieldOfValue(v ssa.Value, field int, d int) ([]ssa.Value, bool) {
-	if d > 6 {
+	if d > 14 {
 		return nil, false
 	}
 	switch x := v.(type) {
@@ -1518,6 +1671,11 @@ func (p *Program) fieldOfValue(v ssa.Value, field int, d int) ([]ssa.Value, bool
 				out = append(out, srcs...)
 			}
 			return out, len(out) > 0
+		}
+	case *ssa.Parameter:
+		// a struct parameter of an inlined helper: the argument
+		if rv := p.resolve(x); rv != ssa.Value(x) {
+			return p.fieldOfValue(rv, field, d+1)
 		}
 	case *ssa.Phi:
 		var out []ssa.Value
@@ -1584,4 +1742,36 @@ func (p *Program) resultCellIndex(addr ssa.Value, fn *ssa.Function) int {
 		}
 	}
 	return -1
+}
+
+// nres is the number of results of a (possibly virtual, see returnsOf) return.
+func (p *Program) nres(ret *ssa.Return) int {
+	if ov, ok := p.retOverride[ret]; ok {
+		return len(ov)
+	}
+	return len(ret.Results)
+}
+
+// partlyForwarded: at least one result of ret is an Extract of a call of an inlined helper in the same block, all such
+// extracts come from that one call, and the return is not a pure forward.
+func partlyForwarded(ret *ssa.Return) *ssa.Call {
+	var call *ssa.Call
+	for _, rs := range ret.Results {
+		ex, ok := rs.(*ssa.Extract)
+		if !ok {
+			continue
+		}
+		c, ok := ex.Tuple.(*ssa.Call)
+		if !ok || transparentCallee(c) == nil {
+			continue
+		}
+		if call != nil && call != c {
+			return nil
+		}
+		call = c
+	}
+	if call == nil || call.Block() != ret.Block() || !nothingBetween(call, ret) {
+		return nil
+	}
+	return call
 }
